@@ -405,3 +405,56 @@ def legal_text(t, drill):
     if drill and (t == "" or t in (".", "..")):
         return False
     return len(t.encode("utf-8")) < 200
+
+
+# ----------------------------------------------------------------------------- extraction vs kernel (DESIGN 3.2)
+def coq_sx(x):
+    """Python value as given to / returned by harness.common.Pqref -> Gallina term of type Extract.Sx.sx
+    (to be read with N_scope open)"""
+    if isinstance(x, bool):
+        return "(SZ %d%%Z)" % (1 if x else 0)
+    if isinstance(x, int):
+        return "(SZ (%d)%%Z)" % x
+    if isinstance(x, (bytes, bytearray)):
+        return "(SB [%s])" % "; ".join(str(b) for b in bytes(x))
+    if isinstance(x, str):
+        return "(SB [%s])" % "; ".join(str(b) for b in x.encode())
+    if x is None:
+        return "(SL [])"
+    return "(SL [%s])" % "; ".join(coq_sx(e) for e in x)
+
+
+def extraction_agrees(ctx, samples, tag):
+    """samples: [(command tuple as given to Pqref.call, parsed output)].  Generates one closed Example per sample,
+    `Cmd.run input = output` proved by vm_compute in coqc: the extracted OCaml program and the Coq kernel's own
+    evaluation of the same Gallina agree on these inputs (a check of extraction + driver, not of the model)."""
+    from harness import common as C
+    if not samples:
+        return
+    path = os.path.join(ctx.gen_dir, "extract_agrees_%s.v" % tag)
+    with open(path, "w") as f:
+        f.write("From Coq Require Import NArith ZArith List String.\nFrom Pq Require Import Extract.Sx Extract.Cmd.\n"
+                "Import ListNotations.\nLocal Open Scope N_scope.\n")
+        for i, (cmd, out) in enumerate(samples):
+            f.write("Example extract_agrees_%s_%d : Cmd.run %s = %s.\nProof. vm_compute. reflexivity. Qed.\n" % (
+                tag, i, coq_sx(list(cmd)), coq_sx(out)))
+    ctx.coq_file(path)
+
+
+def sample_pq(samples, cmds, outs, rng, k, limit=1500):
+    """pick up to k (command, output) pairs of moderate size"""
+    idx = [i for i in range(min(len(cmds), len(outs))) if len(repr(cmds[i])) + len(repr(outs[i])) < limit]
+    for i in rng.sample(idx, min(k, len(idx))):
+        samples.append((cmds[i], outs[i]))
+
+
+def coqchk_props(ctx, pid):
+    """thorough tier (DESIGN 4.6): the independent checker re-checks props/<pid>.vo and everything it depends on"""
+    from harness import common as C
+    import time
+    t = time.time()
+    rc, out = C.run(["coqchk", "-silent", "-o", "-Q", os.path.join(C.COQ, "theories"), "Pq", pid],
+                    cwd=os.path.join(C.COQ, "props"), timeout=1500)
+    ok = rc == 0 and "* Axioms: <none>" in out
+    ctx.checker_cmds.append("cd coq/props && coqchk -silent -o -Q ../theories Pq %s  (%.1fs)" % (pid, time.time() - t))
+    ctx.obligation("coqchk -o %s.vo: re-checked by the standalone checker, Axioms: <none>" % pid, ok, out[-1500:])
